@@ -419,7 +419,9 @@ fn check_auto(input: &[u8]) -> Option<Mismatch> {
 
 fn run(prop: &str, one: Option<&str>) -> (Option<Mismatch>, usize) {
     let mut n = 0usize;
-    macro_rules! sweep { ($cases:expr, $f:expr) => { for c in $cases { n += 1; if let Some(m) = $f(&c) { return (Some(m), n); } } } }
+    // C03 is about panics and the TLV item bound only: other disagreements are not its business
+    let relevant = |m: &Mismatch| prop != "C03" || m.actual.starts_with("PANIC") || m.expected.contains("items, standard walk");
+    macro_rules! sweep { ($cases:expr, $f:expr) => { for c in $cases { n += 1; if let Some(m) = $f(&c) { if relevant(&m) { return (Some(m), n); } } } } }
     if let Some(h) = one {
         let c = unhex(h);
         let m = match prop { "C02" | "C14" | "C17" => check_v2(&c), "C11" => check_tlv(&c), "C06" => check_auto(&c).or_else(|| check_v2(&c)).or_else(|| check_v1(&c)), _ => check_v1(&c).or_else(|| check_v2(&c)).or_else(|| check_auto(&c)) };
